@@ -21,13 +21,17 @@ FindDouble(s) == LET S == {j \in 1..(Len(s) - 3) : s[j] = 13 /\ s[j + 1] = 10 /\
 RECURSIVE SplitCRLF(_)
 SplitCRLF(x) == LET p == FindCRLF0(x) IN IF p < 0 THEN <<x>> ELSE <<Take(x, p)>> \o SplitCRLF(Drop(x, p + 2))
 
-(* the trailer check: every line without bare CR/LF and either a continuation of the previous line or a field line *)
-RECURSIVE TrailerLinesOK(_, _, _)
+(* the trailer check: a line that starts with SP / HTAB is joined to the previous one (as get_header_lines does in the
+   header section); every joined line is free of bare CR / LF and matches HEADER_FIELD_RE *)
+RECURSIVE JoinFolded(_, _, _)
+JoinFolded(lines, i, acc) ==
+  IF i > Len(lines) THEN acc
+  ELSE IF Len(acc) > 0 /\ Len(lines[i]) > 0 /\ Ws(lines[i][1])
+          THEN JoinFolded(lines, i + 1, [acc EXCEPT ![Len(acc)] = @ \o lines[i]])
+          ELSE JoinFolded(lines, i + 1, Append(acc, lines[i]))
 TrailerLinesOK(lines, i, previous) ==
-  IF i > Len(lines) THEN TRUE
-  ELSE LET line == lines[i]
-           folded == previous /\ Len(line) > 0 /\ Ws(line[1])
-       IN IF HasBareCRLF(line) \/ ~(folded \/ Field(line).ok) THEN FALSE ELSE TrailerLinesOK(lines, i + 1, TRUE)
+  LET js == JoinFolded(lines, 1, <<>>)
+  IN \A k \in 1..Len(js) : ~HasBareCRLF(js[k]) /\ Field(js[k]).ok
 
 RECURSIVE Loop(_, _, _)
 Loop(r, s, orig) ==
